@@ -1,17 +1,1969 @@
-//! C04 — engine not implemented yet.
+//! C04 — standard function blocks follow the IEC timing diagrams on every trace.
+//!
+//! Core X2 (explicit-state search by replay). A state is the call history that reaches it; every
+//! history is replayed on the REAL code at two seams
+//!   * `pure`: the public step structs `Ton/Tof/Tp/Ctu/Ctd/Ctud/RTrig/FTrig/Sr/Rs::step`,
+//!   * `st`  : an ST program with two instances of the kind, driven through `TestHarness`
+//!             (`set_input` + `advance_time` + `cycle` + `get_output`),
+//! and compared call by call with a reference model that implements only the clauses of the
+//! property statement. Histories are merged when (all instance variables incl. the hidden ones,
+//! model state) coincide.
+//!
+//! Alphabet (time unit 1 ms): IN in {F,T}; dt in {0,1,2,3,5} ms; PT in {-1 ms, 0, 2 ms, 3 ms, max}
+//! fixed per trace, plus a family where PT is free per call in {0, 2 ms, 3 ms, max}; a small
+//! pure-seam family with extreme time steps dt in {0, 1 ms, i64::MAX ns}; counters: all of bool^2 /
+//! bool^4, PV in {-1,0,1,2,32767} free per call, started from the initial state and from
+//! near-saturation states (CV = max-1, min+1); edge detectors and bistables: all input
+//! combinations. At the ST seam instance A may also be *not called* in a cycle (dt in {0, 2 ms}
+//! passes meanwhile), instance B follows a fixed periodic trace (call, call, skip, call, call)
+//! with its own PT/PV; both instances are compared with the model on every call, and an instance
+//! that is not called in a cycle must keep every variable (hidden ones included) unchanged.
+//! Depth: quick 6 (PT-change family 5, ST CTUD 4), thorough 12 (PT-change 9, ST CTUD 10).
+//!
+//! Search: own BFS instead of `x2::bfs` — compiling the ST driver program costs 1.5 ms, so a
+//! state is replayed from scratch once (when it is expanded) and its successors are tried from a
+//! restored snapshot of the variable storage + clock; see `expand`.
+//!
+//! Readings accepted (statement is silent or ambiguous there, so nothing more is demanded):
+//!   * negative PT: only "no panic" and ET <= max(PT,0);
+//!   * PT changed while a timer runs: four readings are kept alive along the history (current PT
+//!     with unclipped accumulation, current PT with accumulation clipped to PT, Q latched once
+//!     reached, PT sampled when timing starts); a violation is reported only when no reading
+//!     explains all observations so far. With a constant PT the four readings coincide;
+//!   * ET is compared exactly only while the timer is timing (there it is the accumulated time);
+//!     otherwise only 0 <= ET <= PT; the value of ET after a reset / after the pulse is not checked;
+//!   * F_TRIG on the very first call with CLK = FALSE: Q may be either value (IEC body and
+//!     docs/specs/08 say TRUE, "exactly one call per edge" read literally says FALSE);
+//!   * time that passes before the first call of an instance is not "time between two calls".
+//! Not in the alphabet: typed counter variants (CTU_DINT, ... unsigned ones), LTIME timer variants,
+//! DIFU/DIFD aliases (the statement names only the ten base blocks).
 
 use crate::fw::*;
 use crate::iso::WorkerFn;
-use serde_json::Value;
+use crate::par::par_map;
+use serde_json::{json, Value as J};
+use std::sync::atomic::{AtomicU64, Ordering::Relaxed};
+use std::time::{Duration as WallDuration, Instant};
+use trust_runtime::harness::TestHarness;
+use trust_runtime::memory::{InstanceId, VariableStorage};
+use trust_runtime::stdlib::fbs::{Ctd, Ctu, Ctud, FTrig, RTrig, Rs, Sr, Tof, Ton, Tp};
+use trust_runtime::value::{Duration, Value};
 
-pub fn run(_ctx: &Ctx) -> EngineResult {
-    machinery("engine C04 not implemented")
+const MS: i64 = 1_000_000;
+const TMAX: i64 = i64::MAX;
+const INT_MAX: i64 = 32767;
+const INT_MIN: i64 = -32768;
+/// period of instance B's fixed trace
+const B_PERIOD: usize = 5;
+
+// ------------------------------------------------------------------------------------------
+// vocabulary
+
+#[derive(Clone, Copy, PartialEq, Eq, Hash, Debug)]
+pub enum Kind {
+    Ton,
+    Tof,
+    Tp,
+    Ctu,
+    Ctd,
+    Ctud,
+    RTrig,
+    FTrig,
+    Sr,
+    Rs,
 }
 
-pub fn check_case(_case: &Value) -> Vec<Violation> {
-    Vec::new()
+const KINDS: [Kind; 10] = [
+    Kind::Ton,
+    Kind::Tof,
+    Kind::Tp,
+    Kind::Ctu,
+    Kind::Ctd,
+    Kind::Ctud,
+    Kind::RTrig,
+    Kind::FTrig,
+    Kind::Sr,
+    Kind::Rs,
+];
+
+impl Kind {
+    fn name(self) -> &'static str {
+        match self {
+            Kind::Ton => "TON",
+            Kind::Tof => "TOF",
+            Kind::Tp => "TP",
+            Kind::Ctu => "CTU",
+            Kind::Ctd => "CTD",
+            Kind::Ctud => "CTUD",
+            Kind::RTrig => "R_TRIG",
+            Kind::FTrig => "F_TRIG",
+            Kind::Sr => "SR",
+            Kind::Rs => "RS",
+        }
+    }
+    fn parse(s: &str) -> Option<Kind> {
+        KINDS.iter().copied().find(|k| k.name() == s)
+    }
+    fn is_timer(self) -> bool {
+        matches!(self, Kind::Ton | Kind::Tof | Kind::Tp)
+    }
+    fn is_counter(self) -> bool {
+        matches!(self, Kind::Ctu | Kind::Ctd | Kind::Ctud)
+    }
+    /// names of the boolean inputs, in the order of `Inp::b`
+    fn in_names(self) -> &'static [&'static str] {
+        match self {
+            Kind::Ton | Kind::Tof | Kind::Tp => &["IN"],
+            Kind::Ctu => &["CU", "R"],
+            Kind::Ctd => &["CD", "LD"],
+            Kind::Ctud => &["CU", "CD", "R", "LD"],
+            Kind::RTrig | Kind::FTrig => &["CLK"],
+            Kind::Sr => &["S1", "R"],
+            Kind::Rs => &["S", "R1"],
+        }
+    }
+    fn nb(self) -> usize {
+        self.in_names().len()
+    }
+}
+
+#[derive(Clone, Copy, PartialEq, Eq, Debug)]
+enum Seam {
+    Pure,
+    St,
+}
+
+impl Seam {
+    fn name(self) -> &'static str {
+        match self {
+            Seam::Pure => "pure",
+            Seam::St => "st",
+        }
+    }
+}
+
+/// inputs of one call: boolean inputs in the order of `Kind::in_names`, `n` = PT (ns) or PV
+#[derive(Clone, Copy, PartialEq, Eq, Hash, Debug)]
+struct Inp {
+    b: [bool; 4],
+    n: i64,
+}
+
+/// outputs of one call: q = Q / Q1 / QU, q2 = QD, n = ET (ns) or CV
+#[derive(Clone, Copy, PartialEq, Eq, Hash, Debug)]
+struct Obs {
+    q: bool,
+    q2: bool,
+    n: i64,
+}
+
+/// one step of a history: `dt` ns pass, then instance A is called with `a` (None = not called in
+/// this cycle); instance B's action is a fixed function of the step index.
+#[derive(Clone, Copy, PartialEq, Eq, Hash, Debug)]
+struct Ev {
+    dt: i64,
+    a: Option<Inp>,
+}
+
+fn inp_json(i: &Option<Inp>) -> J {
+    match i {
+        None => J::Null,
+        Some(i) => json!({"b": i.b.to_vec(), "n": i.n}),
+    }
+}
+
+fn ev_json(e: &Ev) -> J {
+    json!({"dt": e.dt, "a": inp_json(&e.a)})
+}
+
+fn ev_from(j: &J) -> Option<Ev> {
+    let dt = j["dt"].as_i64()?;
+    let a = if j["a"].is_null() {
+        None
+    } else {
+        let arr = j["a"]["b"].as_array()?;
+        let mut b = [false; 4];
+        for (k, v) in arr.iter().take(4).enumerate() {
+            b[k] = v.as_bool()?;
+        }
+        Some(Inp { b, n: j["a"]["n"].as_i64()? })
+    };
+    Some(Ev { dt, a })
+}
+
+fn tf(b: bool) -> &'static str {
+    if b {
+        "T"
+    } else {
+        "F"
+    }
+}
+
+fn fmt_time(ns: i128) -> String {
+    if ns == TMAX as i128 {
+        "max".to_string()
+    } else if ns % MS as i128 == 0 {
+        format!("{}ms", ns / MS as i128)
+    } else {
+        format!("{ns}ns")
+    }
+}
+
+fn fmt_inp(kind: Kind, i: &Inp) -> String {
+    let mut s = String::new();
+    for (k, name) in kind.in_names().iter().enumerate() {
+        if k > 0 {
+            s.push(' ');
+        }
+        s.push_str(&format!("{name}={}", tf(i.b[k])));
+    }
+    if kind.is_timer() {
+        s.push_str(&format!(" PT={}", fmt_time(i.n as i128)));
+    } else if kind.is_counter() {
+        s.push_str(&format!(" PV={}", i.n));
+    }
+    s
+}
+
+fn fmt_obs(kind: Kind, o: &Obs) -> String {
+    if kind.is_timer() {
+        format!("Q={} ET={}", tf(o.q), fmt_time(o.n as i128))
+    } else if kind == Kind::Ctud {
+        format!("QU={} QD={} CV={}", tf(o.q), tf(o.q2), o.n)
+    } else if kind.is_counter() {
+        format!("Q={} CV={}", tf(o.q), o.n)
+    } else {
+        format!("Q={}", tf(o.q))
+    }
+}
+
+// ------------------------------------------------------------------------------------------
+// family = one BFS run
+
+#[derive(Clone, Debug)]
+struct Fam {
+    seam: Seam,
+    kind: Kind,
+    /// stratum used in signatures: fixed | neg | change | xdt | init | near-max | near-min | all
+    class: String,
+    label: String,
+    /// PT (ns) or PV menu of instance A
+    ns: Vec<i64>,
+    dts: Vec<i64>,
+    /// counters: CV of instance A before the first call
+    start_cv: Option<i64>,
+    /// PT / PV of instance B
+    b_n: i64,
+    no_b: bool,
+    a_skip: bool,
+    depth: usize,
+}
+
+impl Fam {
+    fn json(&self) -> J {
+        json!({
+            "seam": self.seam.name(), "kind": self.kind.name(), "class": self.class,
+            "family": self.label, "start_cv": self.start_cv, "b_n": self.b_n, "no_b": self.no_b,
+        })
+    }
+    fn from_json(j: &J) -> Option<Fam> {
+        Some(Fam {
+            seam: match j["seam"].as_str()? {
+                "pure" => Seam::Pure,
+                "st" => Seam::St,
+                _ => return None,
+            },
+            kind: Kind::parse(j["kind"].as_str()?)?,
+            class: j["class"].as_str()?.to_string(),
+            label: j["family"].as_str().unwrap_or("").to_string(),
+            ns: Vec::new(),
+            dts: Vec::new(),
+            start_cv: j["start_cv"].as_i64(),
+            b_n: j["b_n"].as_i64()?,
+            no_b: j["no_b"].as_bool().unwrap_or(false),
+            a_skip: false,
+            depth: 0,
+        })
+    }
+    /// largest finite PT of the family (no saturation in the extreme-dt families)
+    fn limit(&self) -> i128 {
+        if self.class == "xdt" || !self.kind.is_timer() {
+            return i128::MAX / 4;
+        }
+        // `ns` is not recorded in replay files: use the fixed alphabet bound
+        (3 * MS) as i128
+    }
+    fn menu(&self) -> Vec<Ev> {
+        let nb = self.kind.nb();
+        let mut v = Vec::new();
+        for &dt in &self.dts {
+            // "A not called in this cycle" with dt in {0, 2 ms} (timers) / 0 (others): the time of
+            // the next call of A is pending + dt, so every total is still reached
+            if self.a_skip && (dt == 0 || dt == 2 * MS) {
+                v.push(Ev { dt, a: None });
+            }
+            for bits in 0..(1u32 << nb) {
+                for &n in &self.ns {
+                    let mut b = [false; 4];
+                    for (k, slot) in b.iter_mut().enumerate().take(nb) {
+                        *slot = (bits >> k) & 1 == 1;
+                    }
+                    v.push(Ev { dt, a: Some(Inp { b, n }) });
+                }
+            }
+        }
+        v
+    }
+}
+
+/// Instance B's fixed trace, period 5: call, call, skip, call, call. For counters, edge detectors
+/// and bistables the pattern returns B to the same state every period; for timers B's state also
+/// depends on the (shared) time steps.
+fn b_action(f: &Fam, i: usize) -> Option<Inp> {
+    if f.no_b {
+        return None;
+    }
+    let (t, x) = (true, false);
+    let slot = i % B_PERIOD;
+    if slot == 2 {
+        return None;
+    }
+    let b: [bool; 4] = match f.kind {
+        // IN / CLK: T, T, -, F, F
+        Kind::Ton | Kind::Tof | Kind::Tp | Kind::RTrig | Kind::FTrig => [slot < 2, x, x, x],
+        // CU, R: count, release, -, count, reset
+        Kind::Ctu => match slot {
+            0 => [t, x, x, x],
+            1 => [x, x, x, x],
+            3 => [t, x, x, x],
+            _ => [x, t, x, x],
+        },
+        // CD, LD: load, count, -, release, count
+        Kind::Ctd => match slot {
+            0 => [x, t, x, x],
+            1 => [t, x, x, x],
+            3 => [x, x, x, x],
+            _ => [t, x, x, x],
+        },
+        // CU, CD, R, LD: up, down, -, up (CD held), reset
+        Kind::Ctud => match slot {
+            0 => [t, x, x, x],
+            1 => [x, t, x, x],
+            3 => [t, t, x, x],
+            _ => [x, x, t, x],
+        },
+        // set, hold, -, both, reset
+        Kind::Sr | Kind::Rs => match slot {
+            0 => [t, x, x, x],
+            1 => [x, x, x, x],
+            3 => [t, t, x, x],
+            _ => [x, t, x, x],
+        },
+    };
+    Some(Inp { b, n: f.b_n })
+}
+
+// ------------------------------------------------------------------------------------------
+// coverage counters (counted on the LAST step of every explored history = once per transition)
+
+#[derive(Default)]
+struct Cov {
+    evals: AtomicU64,
+    compared: AtomicU64,
+    q_true: AtomicU64,
+    q_false: AtomicU64,
+    /// timer call at which the accumulated time lands exactly on PT
+    exact_pt: AtomicU64,
+    /// timer call at which the accumulated time is beyond PT
+    beyond_pt: AtomicU64,
+    /// TP: rising edge of IN while the pulse is running (must be ignored)
+    tp_edge_in_pulse: AtomicU64,
+    /// PT differs from the previous call's PT while the timer is timing
+    pt_changed_timing: AtomicU64,
+    et_exact_checked: AtomicU64,
+    sat_max: AtomicU64,
+    sat_min: AtomicU64,
+    both_edges: AtomicU64,
+    fires: AtomicU64,
+    a_skipped: AtomicU64,
+    indep_checks: AtomicU64,
+    delayed_calls: AtomicU64,
+    /// histories replayed from a fresh subject (state expansions)
+    replays: AtomicU64,
+    /// timers: Q expected by the model (first reading alive)
+    exp_q_true: AtomicU64,
+    exp_q_false: AtomicU64,
+}
+
+const COV_NAMES: [&str; 19] = [
+    "evals", "calls_compared", "q_true", "q_false", "acc_lands_exactly_on_pt", "acc_beyond_pt",
+    "tp_rising_edge_during_pulse", "pt_changed_while_timing", "et_compared_exactly",
+    "counter_at_max_and_count_up", "counter_at_min_and_count_down", "ctud_both_edges",
+    "edge_detector_fires", "cycles_with_a_skipped", "independence_checks", "calls_after_skipped_cycles",
+    "histories_replayed_from_scratch", "timer_calls_model_q_true", "timer_calls_model_q_false",
+];
+
+impl Cov {
+    fn values(&self) -> [u64; 19] {
+        [
+            self.evals.load(Relaxed),
+            self.compared.load(Relaxed),
+            self.q_true.load(Relaxed),
+            self.q_false.load(Relaxed),
+            self.exact_pt.load(Relaxed),
+            self.beyond_pt.load(Relaxed),
+            self.tp_edge_in_pulse.load(Relaxed),
+            self.pt_changed_timing.load(Relaxed),
+            self.et_exact_checked.load(Relaxed),
+            self.sat_max.load(Relaxed),
+            self.sat_min.load(Relaxed),
+            self.both_edges.load(Relaxed),
+            self.fires.load(Relaxed),
+            self.a_skipped.load(Relaxed),
+            self.indep_checks.load(Relaxed),
+            self.delayed_calls.load(Relaxed),
+            self.replays.load(Relaxed),
+            self.exp_q_true.load(Relaxed),
+            self.exp_q_false.load(Relaxed),
+        ]
+    }
+}
+
+fn bump(c: Option<&Cov>, f: impl Fn(&Cov) -> &AtomicU64) {
+    if let Some(c) = c {
+        f(c).fetch_add(1, Relaxed);
+    }
+}
+
+// ------------------------------------------------------------------------------------------
+// reference model: only the clauses of the property statement
+
+/// state of one reading of a timer
+#[derive(Clone, Copy, Debug, PartialEq, Eq, Hash)]
+struct TS {
+    phase: u8,
+    /// accumulated time (ns) of the current timing period
+    acc: i128,
+    /// PT seen when the current timing period started
+    pt0: i128,
+    prev_in: bool,
+    /// `acc` was cut down to limit+1 after the timer elapsed (only its order relative to the
+    /// PT menu is still meaningful): ET is no longer compared exactly in this period
+    sat: bool,
+}
+
+const IDLE: u8 = 0;
+const TIMING: u8 = 1;
+const ELAPSED: u8 = 2;
+const HIGH: u8 = 3;
+const PHASES: [&str; 4] = ["idle", "timing", "elapsed", "in-high"];
+const READINGS: [&str; 4] = [
+    "current PT",
+    "current PT, accumulation clipped at PT",
+    "Q latched once PT was reached",
+    "PT sampled when timing started",
+];
+
+struct TPred {
+    q: bool,
+    /// ET must equal this (only while timing)
+    et_exact: Option<i128>,
+    et_max: i128,
+    /// TP: this call shows a rising edge while the pulse is running
+    edge_in_pulse: bool,
+    phase_before: u8,
+    /// accumulated time vs PT at this call: -1 / 0 / 1, 2 = not timing
+    rel: i8,
+    acc: i128,
+    p: i128,
+}
+
+fn rel_of(acc: i128, p: i128) -> i8 {
+    match acc.cmp(&p) {
+        std::cmp::Ordering::Less => -1,
+        std::cmp::Ordering::Equal => 0,
+        std::cmp::Ordering::Greater => 1,
+    }
+}
+
+/// One call under reading `r` (index into READINGS). The time `dt` since the previous call of
+/// this instance is attributed to the input value seen at THIS call.
+///
+/// `limit` = largest finite PT of the family: once a period has elapsed, an accumulated time
+/// beyond it is stored as limit+1 (same order relative to every PT of the menu), which keeps the
+/// state space finite while IN is simply held.
+fn timer_step(kind: Kind, r: usize, s: &mut TS, inn: bool, dt: i128, pt: i128, limit: i128) -> TPred {
+    let ptn = pt.max(0);
+    let mut acc_report = None;
+    let phase_before = s.phase;
+    let mut edge_in_pulse = false;
+    let mut rel = 2i8;
+    let mut et_max = ptn;
+    let mut p_used = ptn;
+    let q;
+    match kind {
+        Kind::Ton => {
+            // Q <=> IN true over consecutive calls whose accumulated time reaches PT
+            if !inn {
+                s.phase = IDLE;
+                s.acc = 0;
+                s.pt0 = 0;
+                s.sat = false;
+                q = false;
+            } else {
+                if s.phase == IDLE {
+                    s.phase = TIMING;
+                    s.acc = 0;
+                    s.pt0 = ptn;
+                }
+                s.acc += dt;
+                let p = if r == 3 { s.pt0 } else { ptn };
+                p_used = p;
+                et_max = p;
+                rel = rel_of(s.acc, p);
+                if r == 2 {
+                    q = s.phase == ELAPSED || s.acc >= p;
+                } else {
+                    q = s.acc >= p;
+                    if r == 1 && s.acc > p {
+                        s.acc = p;
+                    }
+                }
+                s.phase = if q { ELAPSED } else { TIMING };
+            }
+        }
+        Kind::Tof => {
+            // Q stays true until the accumulated time since IN fell reaches PT
+            if inn {
+                s.phase = HIGH;
+                s.acc = 0;
+                s.pt0 = 0;
+                s.sat = false;
+                q = true;
+            } else {
+                if s.phase == HIGH {
+                    s.phase = TIMING;
+                    s.acc = 0;
+                    s.pt0 = ptn;
+                }
+                if s.phase == IDLE {
+                    q = false;
+                } else {
+                    s.acc += dt;
+                    let p = if r == 3 { s.pt0 } else { ptn };
+                    p_used = p;
+                    et_max = p;
+                    rel = rel_of(s.acc, p);
+                    if r == 2 {
+                        q = !(s.phase == ELAPSED || s.acc >= p);
+                    } else {
+                        q = s.acc < p;
+                        if r == 1 && s.acc > p {
+                            s.acc = p;
+                        }
+                    }
+                    s.phase = if q { TIMING } else { ELAPSED };
+                }
+            }
+        }
+        _ => {
+            // TP: one non-retriggerable pulse of accumulated length PT
+            let rising = inn && !s.prev_in;
+            s.prev_in = inn;
+            if s.phase == TIMING {
+                if rising {
+                    edge_in_pulse = true;
+                }
+            } else if rising {
+                s.phase = TIMING;
+                s.acc = 0;
+                s.pt0 = ptn;
+            }
+            if s.phase == TIMING {
+                s.acc += dt;
+                let p = if r == 3 { s.pt0 } else { ptn };
+                p_used = p;
+                et_max = p;
+                rel = rel_of(s.acc, p);
+                if s.acc >= p {
+                    acc_report = Some(s.acc);
+                    s.phase = IDLE;
+                    s.acc = 0;
+                    s.pt0 = 0;
+                    q = false;
+                } else {
+                    q = true;
+                }
+            } else {
+                q = false;
+            }
+        }
+    }
+    let timing_now = match kind {
+        Kind::Ton => inn && !q,
+        Kind::Tof => !inn && q,
+        _ => q,
+    };
+    if s.phase == ELAPSED && s.acc > limit && s.acc < TMAX as i128 {
+        s.acc = limit + 1;
+        s.sat = true;
+    }
+    TPred {
+        q,
+        et_exact: if timing_now && !s.sat { Some(s.acc) } else { None },
+        et_max,
+        edge_in_pulse,
+        phase_before,
+        rel,
+        acc: acc_report.unwrap_or(s.acc),
+        p: p_used,
+    }
+}
+
+#[derive(Clone, Debug, PartialEq, Eq, Hash)]
+enum Model {
+    /// one state per reading; None = reading refuted by an earlier observation
+    Timer([Option<TS>; 4]),
+    Ctu { cv: i64, prev: bool },
+    Ctd { cv: i64, prev: bool },
+    Ctud { cv: i64, pcu: bool, pcd: bool },
+    RTrig { prev: bool },
+    /// prev = None before the first call
+    FTrig { prev: Option<bool> },
+    Sr { q: bool },
+    Rs { q: bool },
+}
+
+impl Model {
+    fn new(kind: Kind, start_cv: Option<i64>) -> Model {
+        let cv = start_cv.unwrap_or(0);
+        match kind {
+            Kind::Ton | Kind::Tof | Kind::Tp => {
+                Model::Timer([Some(TS { phase: IDLE, acc: 0, pt0: 0, prev_in: false, sat: false }); 4])
+            }
+            Kind::Ctu => Model::Ctu { cv, prev: false },
+            Kind::Ctd => Model::Ctd { cv, prev: false },
+            Kind::Ctud => Model::Ctud { cv, pcu: false, pcd: false },
+            Kind::RTrig => Model::RTrig { prev: false },
+            Kind::FTrig => Model::FTrig { prev: None },
+            Kind::Sr => Model::Sr { q: false },
+            Kind::Rs => Model::Rs { q: false },
+        }
+    }
+}
+
+struct Mismatch {
+    clause: &'static str,
+    feature: String,
+    detail: String,
+}
+
+/// per-instance oracle state
+#[derive(Clone, Debug, PartialEq, Eq, Hash)]
+struct Inst {
+    model: Model,
+    called: bool,
+    /// time passed in cycles in which this instance was not called (since its last call)
+    pending: i128,
+    prev: Option<(Inp, Obs)>,
+    /// see `timer_step`
+    limit: i128,
+}
+
+impl Inst {
+    fn new(kind: Kind, start_cv: Option<i64>, limit: i128) -> Inst {
+        Inst { model: Model::new(kind, start_cv), called: false, pending: 0, prev: None, limit }
+    }
+}
+
+fn check_timer(
+    kind: Kind,
+    vars: &mut [Option<TS>; 4],
+    inp: &Inp,
+    dt: i128,
+    limit: i128,
+    obs: &Obs,
+    prev: Option<&(Inp, Obs)>,
+    cov: Option<&Cov>,
+) -> Option<Mismatch> {
+    let inn = inp.b[0];
+    let pt = inp.n as i128;
+    let et = obs.n as i128;
+    if pt < 0 {
+        // The statement is silent on negative PT: only "ET never exceeds PT" (as max(PT,0)).
+        if et > 0 {
+            return Some(Mismatch {
+                clause: "et-exceeds-pt",
+                feature: "neg-pt".into(),
+                detail: format!("ET={} with PT={}", fmt_time(et), fmt_time(pt)),
+            });
+        }
+        return None;
+    }
+    let mut preds: Vec<(usize, TS, TPred)> = Vec::with_capacity(4);
+    for (r, v) in vars.iter().enumerate() {
+        if let Some(s) = v {
+            let mut s2 = *s;
+            let p = timer_step(kind, r, &mut s2, inn, dt, pt, limit);
+            preds.push((r, s2, p));
+        }
+    }
+    // coverage: what the model says happens at this call (independent of the subject)
+    if let Some((_, _, p)) = preds.first() {
+        bump(cov, |c| if p.q { &c.exp_q_true } else { &c.exp_q_false });
+        match p.rel {
+            0 => bump(cov, |c| &c.exact_pt),
+            1 => bump(cov, |c| &c.beyond_pt),
+            _ => {}
+        }
+        if p.edge_in_pulse {
+            bump(cov, |c| &c.tp_edge_in_pulse);
+        }
+        if p.et_exact.is_some() {
+            bump(cov, |c| &c.et_exact_checked);
+        }
+        if p.phase_before == TIMING {
+            if let Some((pi, _)) = prev {
+                if pi.n != inp.n {
+                    bump(cov, |c| &c.pt_changed_timing);
+                }
+            }
+        }
+    }
+    let ok = |p: &TPred| {
+        obs.q == p.q && et <= p.et_max && et >= 0 && p.et_exact.map_or(true, |e| e == et)
+    };
+    if !preds.iter().any(|(_, _, p)| ok(p)) {
+        let (r, _, p) = &preds[0];
+        let phase = PHASES[p.phase_before as usize];
+        let rel = match p.rel {
+            -1 => "acc<PT",
+            0 => "acc=PT",
+            1 => "acc>PT",
+            _ => "not-timing",
+        };
+        let readings: Vec<&str> = preds.iter().map(|(r, _, _)| READINGS[*r]).collect();
+        // signature features, deliberately coarse (one root cause => few signatures): does the
+        // timing period start at this call or is it running; does the accumulated time land
+        // exactly on PT or not
+        let when = if p.phase_before == IDLE || p.phase_before == HIGH { "start" } else { "run" };
+        let at = if p.rel == 0 { "at-PT" } else { "off-PT" };
+        let ctx = format!(
+            "model (reading '{}'{}): phase before the call {phase}, accumulated time {} vs PT {} ({rel})",
+            READINGS[*r],
+            if readings.len() > 1 { format!("; {} readings alive, none fits", readings.len()) } else { String::new() },
+            fmt_time(p.acc),
+            fmt_time(p.p)
+        );
+        let (clause, feature, detail) = if obs.q != p.q {
+            (
+                if p.edge_in_pulse { "tp-retrigger" } else { "q" },
+                format!("{when},{at}"),
+                format!("Q={} but the statement gives Q={}; {ctx}", tf(obs.q), tf(p.q)),
+            )
+        } else if et > p.et_max {
+            (
+                "et-exceeds-pt",
+                String::new(),
+                format!("ET={} exceeds PT={}; {ctx}", fmt_time(et), fmt_time(p.et_max)),
+            )
+        } else if et < 0 {
+            ("et-negative", String::new(), format!("ET={} is negative; {ctx}", fmt_time(et)))
+        } else {
+            let e = p.et_exact.unwrap_or(0);
+            (
+                if p.edge_in_pulse { "tp-retrigger" } else { "et-value" },
+                when.to_string(),
+                format!("ET={} while timing, but the accumulated time is {}; {ctx}", fmt_time(et), fmt_time(e)),
+            )
+        };
+        return Some(Mismatch { clause, feature, detail });
+    }
+    let mut nv = [None; 4];
+    for (r, s2, p) in &preds {
+        if ok(p) {
+            nv[*r] = Some(*s2);
+        }
+    }
+    *vars = nv;
+    // observation-only clause: ET never decreases while timing
+    if let Some((pi, po)) = prev {
+        let timing = |i: &Inp, o: &Obs| match kind {
+            Kind::Ton => i.b[0] && !o.q,
+            Kind::Tof => !i.b[0] && o.q,
+            _ => o.q,
+        };
+        if pi.n >= 0 && timing(pi, po) && timing(inp, obs) && obs.n < po.n {
+            return Some(Mismatch {
+                clause: "et-decreases",
+                feature: String::new(),
+                detail: format!(
+                    "ET went from {} to {} between two consecutive calls that are both timing",
+                    fmt_time(po.n as i128),
+                    fmt_time(et)
+                ),
+            });
+        }
+    }
+    None
+}
+
+fn rel3(a: i64, b: i64, name: &str) -> String {
+    match a.cmp(&b) {
+        std::cmp::Ordering::Less => format!("cv<{name}"),
+        std::cmp::Ordering::Equal => format!("cv={name}"),
+        std::cmp::Ordering::Greater => format!("cv>{name}"),
+    }
+}
+
+fn cmp_counter(
+    branch: &'static str,
+    cv: i64,
+    pv: i64,
+    exp_q: bool,
+    exp_q2: Option<bool>,
+    obs: &Obs,
+) -> Option<Mismatch> {
+    if obs.n != cv {
+        return Some(Mismatch {
+            clause: "cv",
+            feature: branch.to_string(),
+            detail: format!("CV={} but the IEC body gives CV={cv} (branch: {branch})", obs.n),
+        });
+    }
+    if obs.q != exp_q {
+        return Some(Mismatch {
+            clause: if exp_q2.is_some() { "qu" } else { "q" },
+            feature: rel3(cv, pv, "pv"),
+            detail: format!("Q/QU={} but expected {} with CV={cv}, PV={pv}", tf(obs.q), tf(exp_q)),
+        });
+    }
+    if let Some(e2) = exp_q2 {
+        if obs.q2 != e2 {
+            return Some(Mismatch {
+                clause: "qd",
+                feature: rel3(cv, 0, "0"),
+                detail: format!("QD={} but expected {} with CV={cv}", tf(obs.q2), tf(e2)),
+            });
+        }
+    }
+    None
+}
+
+impl Inst {
+    /// Compares one call of the real block with the statement; updates the model.
+    fn observe(&mut self, kind: Kind, inp: &Inp, dt: i128, obs: &Obs, cov: Option<&Cov>) -> Option<Mismatch> {
+        let limit = self.limit;
+        bump(cov, |c| &c.compared);
+        bump(cov, |c| if obs.q { &c.q_true } else { &c.q_false });
+        let prev = self.prev;
+        let mm = match &mut self.model {
+            Model::Timer(vars) => check_timer(kind, vars, inp, dt, limit, obs, prev.as_ref(), cov),
+            Model::Ctu { cv, prev } => {
+                // docs/specs/08 §4: IF R THEN CV:=0 ELSIF CU(rising) AND CV<PVmax THEN CV+1; Q:=CV>=PV
+                let (cu, r, pv) = (inp.b[0], inp.b[1], inp.n);
+                let rising = cu && !*prev;
+                *prev = cu;
+                let branch = if r {
+                    *cv = 0;
+                    "reset"
+                } else if rising {
+                    if *cv < INT_MAX {
+                        *cv += 1;
+                        "up"
+                    } else {
+                        bump(cov, |c| &c.sat_max);
+                        "sat-max"
+                    }
+                } else {
+                    "hold"
+                };
+                cmp_counter(branch, *cv, pv, *cv >= pv, None, obs)
+            }
+            Model::Ctd { cv, prev } => {
+                let (cd, ld, pv) = (inp.b[0], inp.b[1], inp.n);
+                let rising = cd && !*prev;
+                *prev = cd;
+                let branch = if ld {
+                    *cv = pv;
+                    "load"
+                } else if rising {
+                    if *cv > INT_MIN {
+                        *cv -= 1;
+                        "down"
+                    } else {
+                        bump(cov, |c| &c.sat_min);
+                        "sat-min"
+                    }
+                } else {
+                    "hold"
+                };
+                let exp_q = *cv <= 0;
+                if obs.n == *cv && obs.q != exp_q {
+                    Some(Mismatch {
+                        clause: "q",
+                        feature: rel3(*cv, 0, "0"),
+                        detail: format!("Q={} but expected {} with CV={cv}", tf(obs.q), tf(exp_q)),
+                    })
+                } else {
+                    cmp_counter(branch, *cv, pv, exp_q, None, obs)
+                }
+            }
+            Model::Ctud { cv, pcu, pcd } => {
+                let (cu, cd, r, ld, pv) = (inp.b[0], inp.b[1], inp.b[2], inp.b[3], inp.n);
+                let (ru, rd) = (cu && !*pcu, cd && !*pcd);
+                *pcu = cu;
+                *pcd = cd;
+                let branch = if r {
+                    *cv = 0;
+                    "reset"
+                } else if ld {
+                    *cv = pv;
+                    "load"
+                } else if ru && rd {
+                    // docs/specs/08 §4: both rising edges at once leave the count unchanged
+                    bump(cov, |c| &c.both_edges);
+                    "both-edges"
+                } else if ru {
+                    if *cv < INT_MAX {
+                        *cv += 1;
+                        "up"
+                    } else {
+                        bump(cov, |c| &c.sat_max);
+                        "sat-max"
+                    }
+                } else if rd {
+                    if *cv > INT_MIN {
+                        *cv -= 1;
+                        "down"
+                    } else {
+                        bump(cov, |c| &c.sat_min);
+                        "sat-min"
+                    }
+                } else {
+                    "hold"
+                };
+                cmp_counter(branch, *cv, pv, *cv >= pv, Some(*cv <= 0), obs)
+            }
+            Model::RTrig { prev } => {
+                let clk = inp.b[0];
+                let exp = clk && !*prev;
+                let feature = if exp { "edge" } else if clk { "level-after-edge" } else { "low" };
+                *prev = clk;
+                if exp {
+                    bump(cov, |c| &c.fires);
+                }
+                (obs.q != exp).then(|| Mismatch {
+                    clause: "q",
+                    feature: feature.to_string(),
+                    detail: format!("Q={} but a rising-edge detector gives {} here ({feature})", tf(obs.q), tf(exp)),
+                })
+            }
+            Model::FTrig { prev } => {
+                let clk = inp.b[0];
+                let exp = match *prev {
+                    None if !clk => None, // first call with CLK low: either value accepted
+                    None => Some(false),
+                    Some(p) => Some(!clk && p),
+                };
+                let feature = match (*prev, clk) {
+                    (None, _) => "first-call",
+                    (Some(true), false) => "edge",
+                    (Some(false), false) => "level-after-edge",
+                    _ => "high",
+                };
+                *prev = Some(clk);
+                if exp == Some(true) {
+                    bump(cov, |c| &c.fires);
+                }
+                match exp {
+                    Some(e) if e != obs.q => Some(Mismatch {
+                        clause: "q",
+                        feature: feature.to_string(),
+                        detail: format!("Q={} but a falling-edge detector gives {} here ({feature})", tf(obs.q), tf(e)),
+                    }),
+                    _ => None,
+                }
+            }
+            Model::Sr { q } => {
+                let (s1, r) = (inp.b[0], inp.b[1]);
+                let before = *q;
+                *q = s1 || (!r && *q);
+                (obs.q != *q).then(|| Mismatch {
+                    clause: "q",
+                    feature: format!("s1={},r={}", tf(s1), tf(r)),
+                    detail: format!("Q1={} (was {}) but S1 OR (NOT R AND Q1) = {}", tf(obs.q), tf(before), tf(*q)),
+                })
+            }
+            Model::Rs { q } => {
+                let (s, r1) = (inp.b[0], inp.b[1]);
+                let before = *q;
+                *q = !r1 && (s || *q);
+                (obs.q != *q).then(|| Mismatch {
+                    clause: "q",
+                    feature: format!("s={},r1={}", tf(s), tf(r1)),
+                    detail: format!("Q1={} (was {}) but NOT R1 AND (S OR Q1) = {}", tf(obs.q), tf(before), tf(*q)),
+                })
+            }
+        };
+        self.prev = Some((*inp, *obs));
+        mm
+    }
+}
+
+// ------------------------------------------------------------------------------------------
+// subjects: the real code at the two seams
+
+#[derive(Clone)]
+enum PureFb {
+    Ton(Ton),
+    Tof(Tof),
+    Tp(Tp),
+    Ctu(Ctu),
+    Ctd(Ctd),
+    Ctud(Ctud),
+    RTrig(RTrig),
+    FTrig(FTrig),
+    Sr(Sr),
+    Rs(Rs),
+}
+
+impl PureFb {
+    fn new(kind: Kind) -> PureFb {
+        match kind {
+            Kind::Ton => PureFb::Ton(Ton::new()),
+            Kind::Tof => PureFb::Tof(Tof::new()),
+            Kind::Tp => PureFb::Tp(Tp::new()),
+            Kind::Ctu => PureFb::Ctu(Ctu::new()),
+            Kind::Ctd => PureFb::Ctd(Ctd::new()),
+            Kind::Ctud => PureFb::Ctud(Ctud::new()),
+            Kind::RTrig => PureFb::RTrig(RTrig::new()),
+            Kind::FTrig => PureFb::FTrig(FTrig::new()),
+            Kind::Sr => PureFb::Sr(Sr::new()),
+            Kind::Rs => PureFb::Rs(Rs::new()),
+        }
+    }
+    fn step(&mut self, i: &Inp, delta: i64) -> Obs {
+        let d = Duration::from_nanos;
+        let t = |o: trust_runtime::stdlib::fbs::TimerOutput| Obs { q: o.q, q2: false, n: o.et.as_nanos() };
+        let c = |o: trust_runtime::stdlib::fbs::CounterOutput| Obs { q: o.q, q2: false, n: o.cv as i64 };
+        let b = |q: bool| Obs { q, q2: false, n: 0 };
+        match self {
+            PureFb::Ton(x) => t(x.step(i.b[0], d(i.n), d(delta))),
+            PureFb::Tof(x) => t(x.step(i.b[0], d(i.n), d(delta))),
+            PureFb::Tp(x) => t(x.step(i.b[0], d(i.n), d(delta))),
+            PureFb::Ctu(x) => c(x.step(i.b[0], i.b[1], i.n as i16)),
+            PureFb::Ctd(x) => c(x.step(i.b[0], i.b[1], i.n as i16)),
+            PureFb::Ctud(x) => {
+                let o = x.step(i.b[0], i.b[1], i.b[2], i.b[3], i.n as i16);
+                Obs { q: o.qu, q2: o.qd, n: o.cv as i64 }
+            }
+            PureFb::RTrig(x) => b(x.step(i.b[0])),
+            PureFb::FTrig(x) => b(x.step(i.b[0])),
+            PureFb::Sr(x) => b(x.step(i.b[0], i.b[1])),
+            PureFb::Rs(x) => b(x.step(i.b[0], i.b[1])),
+        }
+    }
+    /// all (private) fields through the derived Debug
+    fn dump(&self) -> String {
+        match self {
+            PureFb::Ton(x) => format!("{x:?}"),
+            PureFb::Tof(x) => format!("{x:?}"),
+            PureFb::Tp(x) => format!("{x:?}"),
+            PureFb::Ctu(x) => format!("{x:?}"),
+            PureFb::Ctd(x) => format!("{x:?}"),
+            PureFb::Ctud(x) => format!("{x:?}"),
+            PureFb::RTrig(x) => format!("{x:?}"),
+            PureFb::FTrig(x) => format!("{x:?}"),
+            PureFb::Sr(x) => format!("{x:?}"),
+            PureFb::Rs(x) => format!("{x:?}"),
+        }
+    }
+}
+
+fn st_source(kind: Kind) -> String {
+    let ty = kind.name();
+    let mut vars = String::new();
+    let mut body = String::new();
+    for s in ["a", "b"] {
+        vars.push_str(&format!(
+            "  f{s} : {ty};\n  call_{s} : BOOL;\n  x0_{s} : BOOL;\n  x1_{s} : BOOL;\n  x2_{s} : BOOL;\n  x3_{s} : BOOL;\n  q_{s} : BOOL;\n  q2_{s} : BOOL;\n"
+        ));
+        if kind.is_timer() {
+            vars.push_str(&format!("  pt_{s} : TIME;\n  et_{s} : TIME;\n"));
+        } else if kind.is_counter() {
+            vars.push_str(&format!("  pv_{s} : INT;\n  cv_{s} : INT;\n"));
+        }
+        let call = match kind {
+            Kind::Ton | Kind::Tof | Kind::Tp => {
+                format!("f{s}(IN := x0_{s}, PT := pt_{s}, Q => q_{s}, ET => et_{s});")
+            }
+            Kind::Ctu => format!("f{s}(CU := x0_{s}, R := x1_{s}, PV := pv_{s}, Q => q_{s}, CV => cv_{s});"),
+            Kind::Ctd => format!("f{s}(CD := x0_{s}, LD := x1_{s}, PV := pv_{s}, Q => q_{s}, CV => cv_{s});"),
+            Kind::Ctud => format!(
+                "f{s}(CU := x0_{s}, CD := x1_{s}, R := x2_{s}, LD := x3_{s}, PV := pv_{s}, QU => q_{s}, QD => q2_{s}, CV => cv_{s});"
+            ),
+            Kind::RTrig | Kind::FTrig => format!("f{s}(CLK := x0_{s}, Q => q_{s});"),
+            Kind::Sr => format!("f{s}(S1 := x0_{s}, R := x1_{s}, Q1 => q_{s});"),
+            Kind::Rs => format!("f{s}(S := x0_{s}, R1 := x1_{s}, Q1 => q_{s});"),
+        };
+        body.push_str(&format!("IF call_{s} THEN\n  {call}\nEND_IF;\n"));
+    }
+    format!("PROGRAM Main\nVAR\n{vars}END_VAR\n{body}END_PROGRAM\n")
+}
+
+struct StSeam {
+    h: TestHarness,
+    ids: [InstanceId; 2],
+    kind: Kind,
+}
+
+enum Fail {
+    Cycle(String),
+    Output(String),
+}
+
+const AB: [&str; 2] = ["a", "b"];
+
+impl StSeam {
+    fn new(kind: Kind, start_cv: Option<i64>) -> Result<StSeam, String> {
+        let src = st_source(kind);
+        let h = catch(|| TestHarness::from_source(&src))
+            .map_err(|p| format!("compiling the {} driver program panicked: {p}", kind.name()))?
+            .map_err(|e| format!("the {} driver program does not compile: {e:?}\n{src}", kind.name()))?;
+        let mut ids = [InstanceId(0); 2];
+        for w in 0..2 {
+            match h.get_output(&format!("f{}", AB[w])) {
+                Some(Value::Instance(id)) => ids[w] = id,
+                o => return Err(format!("f{} is not an instance: {o:?}", AB[w])),
+            }
+        }
+        let mut s = StSeam { h, ids, kind };
+        if let Some(cv) = start_cv {
+            // a state reachable by |cv| count pulses, installed directly (DESIGN.md C04)
+            s.h.runtime_mut().storage_mut().set_instance_var(s.ids[0], "CV", Value::Int(cv as i16));
+        }
+        Ok(s)
+    }
+
+    fn dump(&self, w: usize, normalise: bool) -> Vec<(String, String)> {
+        let now = self.h.current_time().as_nanos();
+        let Some(inst) = self.h.runtime().storage().get_instance(self.ids[w]) else {
+            return vec![("<missing instance>".into(), String::new())];
+        };
+        inst.variables
+            .iter()
+            .map(|(k, v)| {
+                let vs = match v {
+                    Value::Time(d) | Value::LTime(d) if normalise && k.contains("LAST_TIME") => {
+                        format!("now-{}", now - d.as_nanos())
+                    }
+                    o => format!("{o:?}"),
+                };
+                (k.to_string(), vs)
+            })
+            .collect()
+    }
+
+    fn read_obs(&self, w: usize) -> Result<Obs, Fail> {
+        let s = AB[w];
+        let rb = |name: String| match self.h.get_output(&name) {
+            Some(Value::Bool(b)) => Ok(b),
+            o => Err(Fail::Output(format!("{name} = {o:?}"))),
+        };
+        let q = rb(format!("q_{s}"))?;
+        let q2 = if self.kind == Kind::Ctud { rb(format!("q2_{s}"))? } else { false };
+        let n = if self.kind.is_timer() {
+            match self.h.get_output(&format!("et_{s}")) {
+                Some(Value::Time(d)) | Some(Value::LTime(d)) => d.as_nanos(),
+                o => return Err(Fail::Output(format!("et_{s} = {o:?}"))),
+            }
+        } else if self.kind.is_counter() {
+            match self.h.get_output(&format!("cv_{s}")) {
+                Some(Value::Int(v)) => v as i64,
+                Some(Value::SInt(v)) => v as i64,
+                Some(Value::DInt(v)) => v as i64,
+                Some(Value::LInt(v)) => v,
+                o => return Err(Fail::Output(format!("cv_{s} = {o:?}"))),
+            }
+        } else {
+            0
+        };
+        Ok(Obs { q, q2, n })
+    }
+}
+
+struct StepOut {
+    obs: [Option<Obs>; 2],
+    /// (instance that changed although it was not called, variable, detail)
+    indep: Vec<(usize, String, String)>,
+    indep_checks: u64,
+}
+
+enum Subject {
+    Pure(Box<[PureFb; 2]>),
+    St(Box<StSeam>),
+}
+
+enum Snapshot {
+    Pure(Box<[PureFb; 2]>),
+    St(Box<VariableStorage>, Duration),
+}
+
+impl Subject {
+    /// Err = machinery problem; Ok(.., Some(problem)) = the start state could not be installed
+    /// because the block miscounts (a violation).
+    fn new(f: &Fam) -> Result<(Subject, Option<String>), String> {
+        match f.seam {
+            Seam::St => Ok((Subject::St(Box::new(StSeam::new(f.kind, f.start_cv)?)), None)),
+            Seam::Pure => {
+                let mut a = PureFb::new(f.kind);
+                let mut problem = None;
+                if let Some(cv) = f.start_cv {
+                    // reach the start state through the public API only
+                    let x = false;
+                    let last = match f.kind {
+                        Kind::Ctu => {
+                            let mut last = Obs { q: false, q2: false, n: 0 };
+                            for _ in 0..cv.max(0) {
+                                a.step(&Inp { b: [true, x, x, x], n: 0 }, 0);
+                                last = a.step(&Inp { b: [x, x, x, x], n: 0 }, 0);
+                            }
+                            last
+                        }
+                        Kind::Ctd => a.step(&Inp { b: [x, true, x, x], n: cv }, 0),
+                        Kind::Ctud => a.step(&Inp { b: [x, x, x, true], n: cv }, 0),
+                        _ => return Err("start_cv on a non-counter".into()),
+                    };
+                    if last.n != cv {
+                        problem = Some(format!("after the set-up calls CV={} instead of {cv}", last.n));
+                    }
+                }
+                Ok((Subject::Pure(Box::new([a, PureFb::new(f.kind)])), problem))
+            }
+        }
+    }
+
+    /// `acts[w]` = (inputs, time since the previous call of w) or None when w is not called.
+    fn step(&mut self, dt: i64, acts: [Option<(Inp, i64)>; 2]) -> Result<StepOut, Fail> {
+        let mut out = StepOut { obs: [None, None], indep: Vec::new(), indep_checks: 0 };
+        match self {
+            Subject::Pure(fbs) => {
+                for w in 0..2 {
+                    if let Some((inp, delta)) = acts[w] {
+                        let other = fbs[1 - w].dump();
+                        out.obs[w] = Some(fbs[w].step(&inp, delta));
+                        out.indep_checks += 1;
+                        let after = fbs[1 - w].dump();
+                        if other != after {
+                            out.indep.push((1 - w, "struct".into(), format!("{other} -> {after}")));
+                        }
+                    }
+                }
+            }
+            Subject::St(s) => {
+                let kind = s.kind;
+                for w in 0..2 {
+                    let n = AB[w];
+                    s.h.set_input(&format!("call_{n}"), Value::Bool(acts[w].is_some()));
+                    if let Some((inp, _)) = acts[w] {
+                        for k in 0..kind.nb() {
+                            s.h.set_input(&format!("x{k}_{n}"), Value::Bool(inp.b[k]));
+                        }
+                        if kind.is_timer() {
+                            s.h.set_input(&format!("pt_{n}"), Value::Time(Duration::from_nanos(inp.n)));
+                        } else if kind.is_counter() {
+                            s.h.set_input(&format!("pv_{n}"), Value::Int(inp.n as i16));
+                        }
+                    }
+                }
+                if dt > 0 {
+                    s.h.advance_time(Duration::from_nanos(dt));
+                }
+                let before = [s.dump(0, false), s.dump(1, false)];
+                let res = s.h.cycle();
+                if !res.errors.is_empty() {
+                    return Err(Fail::Cycle(format!("{:?}", res.errors)));
+                }
+                for w in 0..2 {
+                    if acts[w].is_some() {
+                        out.obs[w] = Some(s.read_obs(w)?);
+                    } else {
+                        out.indep_checks += 1;
+                        let after = s.dump(w, false);
+                        if after != before[w] {
+                            let var = after
+                                .iter()
+                                .zip(before[w].iter())
+                                .find(|(x, y)| x != y)
+                                .map(|(x, _)| x.0.clone())
+                                .unwrap_or_else(|| "<variable set>".into());
+                            out.indep.push((w, var, format!("{:?} -> {:?}", before[w], after)));
+                        }
+                    }
+                }
+            }
+        }
+        Ok(out)
+    }
+
+    fn snapshot(&self) -> Snapshot {
+        match self {
+            Subject::Pure(fbs) => Snapshot::Pure(fbs.clone()),
+            Subject::St(s) => Snapshot::St(Box::new(s.h.runtime().storage().clone()), s.h.current_time()),
+        }
+    }
+
+    /// Puts the subject back into a state it was in before (used only for the one-step
+    /// look-ahead from a state that was reached by a real replay; see `expand`).
+    fn restore(&mut self, snap: &Snapshot) {
+        match (self, snap) {
+            (Subject::Pure(fbs), Snapshot::Pure(saved)) => *fbs = saved.clone(),
+            (Subject::St(s), Snapshot::St(storage, now)) => {
+                *s.h.runtime_mut().storage_mut() = (**storage).clone();
+                s.h.runtime_mut().set_current_time(*now);
+            }
+            _ => unreachable!("snapshot of the other seam"),
+        }
+    }
+
+    fn key_dump(&self) -> String {
+        match self {
+            Subject::Pure(fbs) => format!("{}|{}", fbs[0].dump(), fbs[1].dump()),
+            Subject::St(s) => format!("{:?}|{:?}", s.dump(0, true), s.dump(1, true)),
+        }
+    }
+}
+
+// ------------------------------------------------------------------------------------------
+// one run = real subject + oracle state; stepping and comparing
+
+struct Run {
+    subj: Subject,
+    insts: [Inst; 2],
+}
+
+/// (signature, text) of a violation seen at one step
+type Found = Vec<(String, String)>;
+
+enum StepErr {
+    Viol(Found),
+    Machinery(String),
+}
+
+fn norm_msg(m: &str) -> String {
+    let s: String = m.chars().map(|c| if c.is_ascii_digit() { '#' } else { c }).collect();
+    s.chars().take(60).collect()
+}
+
+fn render(f: &Fam, hist: &[Ev]) -> String {
+    let mut parts = Vec::new();
+    for (i, ev) in hist.iter().enumerate() {
+        let a = match &ev.a {
+            Some(i) => format!("A({})", fmt_inp(f.kind, i)),
+            None => "A not called".to_string(),
+        };
+        let b = match b_action(f, i) {
+            Some(i) => format!(", B({})", fmt_inp(f.kind, &i)),
+            None => String::new(),
+        };
+        parts.push(format!("#{}: +{} {a}{b}", i + 1, fmt_time(ev.dt as i128)));
+    }
+    parts.join("; ")
+}
+
+fn case_json(f: &Fam, hist: &[Ev]) -> J {
+    let mut c = f.json();
+    c["history"] = J::Array(hist.iter().map(ev_json).collect());
+    c
+}
+
+fn mk_violation(f: &Fam, hist: &[Ev], sig: String, text: &str) -> Violation {
+    Violation {
+        signature: sig,
+        what: format!(
+            "{} seam, {} [{}], call history {{{}}}: at the last step {text}",
+            f.seam.name(),
+            f.kind.name(),
+            f.label,
+            if hist.is_empty() { "set-up only".to_string() } else { render(f, hist) }
+        ),
+        case: case_json(f, hist),
+    }
+}
+
+fn sig_of(f: &Fam, m: &Mismatch) -> String {
+    if m.clause == "tp-retrigger" {
+        return format!("C04/tp-retrigger/{}", f.seam.name());
+    }
+    let mut s = format!("C04/{}/{}:{}", m.clause, f.seam.name(), f.kind.name());
+    if !m.feature.is_empty() {
+        s.push('/');
+        s.push_str(&m.feature);
+    }
+    s
+}
+
+fn start(f: &Fam) -> Result<Run, StepErr> {
+    let (subj, problem) = Subject::new(f).map_err(StepErr::Machinery)?;
+    if let Some(p) = problem {
+        let sig = format!("C04/cv/{}:{}/{}/setup", f.seam.name(), f.kind.name(), f.class);
+        return Err(StepErr::Viol(vec![(sig, p)]));
+    }
+    let limit = f.limit();
+    Ok(Run { subj, insts: [Inst::new(f.kind, f.start_cv, limit), Inst::new(f.kind, None, limit)] })
+}
+
+/// Step number `i` (0-based) of a history: `ev.dt` passes, A is called (or not), B follows its
+/// fixed trace; every call made is compared with the statement.
+fn step_once(f: &Fam, run: &mut Run, i: usize, ev: &Ev, cov: Option<&Cov>) -> Result<(), StepErr> {
+    let tag = format!("{}:{}/{}", f.seam.name(), f.kind.name(), f.class);
+    let inps = [ev.a, b_action(f, i)];
+    let mut acts: [Option<(Inp, i64)>; 2] = [None, None];
+    let mut dts = [0i128; 2];
+    for w in 0..2 {
+        if let Some(inp) = inps[w] {
+            // time before the first call of an instance is not "between two calls"
+            let d = if run.insts[w].called { run.insts[w].pending + ev.dt as i128 } else { 0 };
+            dts[w] = d;
+            acts[w] = Some((inp, d.min(i64::MAX as i128) as i64));
+            if run.insts[w].called && run.insts[w].pending > 0 {
+                bump(cov, |c| &c.delayed_calls);
+            }
+        }
+    }
+    if inps[0].is_none() {
+        bump(cov, |c| &c.a_skipped);
+    }
+    let subj = &mut run.subj;
+    let out = match catch(|| subj.step(ev.dt, acts)) {
+        Ok(Ok(o)) => o,
+        Ok(Err(Fail::Cycle(e))) => {
+            return Err(StepErr::Viol(vec![(
+                format!("C04/cycle-error/{tag}/{}", norm_msg(&e)),
+                format!("the cycle reported {e}"),
+            )]))
+        }
+        Ok(Err(Fail::Output(e))) => {
+            return Err(StepErr::Viol(vec![(format!("C04/output/{tag}"), format!("unreadable output {e}"))]))
+        }
+        Err(e) => {
+            return Err(StepErr::Viol(vec![(
+                format!("C04/panic/{tag}/{}", norm_msg(&e)),
+                format!("the call panicked: {e}"),
+            )]))
+        }
+    };
+    if let Some(c) = cov {
+        c.indep_checks.fetch_add(out.indep_checks, Relaxed);
+    }
+    let mut found: Found = Vec::new();
+    for (w, var, detail) in &out.indep {
+        found.push((
+            format!("C04/independence/{}:{}/{}", f.seam.name(), f.kind.name(), var),
+            format!("instance {} was not called but its state changed: {detail}", AB[*w].to_uppercase()),
+        ));
+    }
+    for w in 0..2 {
+        match inps[w] {
+            Some(inp) => {
+                let Some(obs) = out.obs[w] else {
+                    return Err(StepErr::Machinery("missing observation".into()));
+                };
+                if let Some(m) = run.insts[w].observe(f.kind, &inp, dts[w], &obs, cov) {
+                    found.push((
+                        sig_of(f, &m),
+                        format!(
+                            "instance {} (time since its previous call {}) returned {}: {}",
+                            AB[w].to_uppercase(),
+                            fmt_time(dts[w]),
+                            fmt_obs(f.kind, &obs),
+                            m.detail
+                        ),
+                    ));
+                }
+                run.insts[w].called = true;
+                run.insts[w].pending = 0;
+            }
+            None => {
+                if run.insts[w].called {
+                    run.insts[w].pending += ev.dt as i128;
+                }
+            }
+        }
+    }
+    if found.is_empty() {
+        Ok(())
+    } else {
+        Err(StepErr::Viol(found))
+    }
+}
+
+/// canonical key: phase of B's trace, every instance variable of both instances (hidden ones
+/// included, last-call time relative to now), oracle state
+fn key_of(f: &Fam, run: &Run, len: usize) -> Key {
+    use std::hash::{Hash, Hasher};
+    let phase = if f.no_b { 0 } else { len % B_PERIOD };
+    let text = format!("{phase}|{}|{:?}", run.subj.key_dump(), run.insts);
+    // 128 bits from two independently salted SipHash runs (fixed keys: deterministic)
+    let mut h1 = std::collections::hash_map::DefaultHasher::new();
+    0u8.hash(&mut h1);
+    text.hash(&mut h1);
+    let mut h2 = std::collections::hash_map::DefaultHasher::new();
+    1u8.hash(&mut h2);
+    text.hash(&mut h2);
+    (h1.finish(), h2.finish())
+}
+
+type Key = (u64, u64);
+
+struct Replay {
+    run: Option<Run>,
+    /// violations with the prefix of the history at which they appear
+    viols: Vec<Violation>,
+    machinery: Option<String>,
+}
+
+/// Replays a whole history from a fresh subject; stops at the first violating step.
+fn replay(f: &Fam, hist: &[Ev], cov: Option<&Cov>) -> Replay {
+    let found = |upto: usize, fs: Found| Replay {
+        run: None,
+        viols: fs.into_iter().map(|(s, t)| mk_violation(f, &hist[..upto], s, &t)).collect(),
+        machinery: None,
+    };
+    let mut run = match start(f) {
+        Ok(r) => r,
+        Err(StepErr::Viol(fs)) => return found(0, fs),
+        Err(StepErr::Machinery(m)) => return Replay { run: None, viols: Vec::new(), machinery: Some(m) },
+    };
+    for (i, ev) in hist.iter().enumerate() {
+        match step_once(f, &mut run, i, ev, cov) {
+            Ok(()) => {}
+            Err(StepErr::Viol(fs)) => return found(i + 1, fs),
+            Err(StepErr::Machinery(m)) => return Replay { run: None, viols: Vec::new(), machinery: Some(m) },
+        }
+    }
+    Replay { run: Some(run), viols: Vec::new(), machinery: None }
+}
+
+pub fn check_case(case: &J) -> Vec<Violation> {
+    let Some(f) = Fam::from_json(case) else { return Vec::new() };
+    let hist: Vec<Ev> = case["history"].as_array().map(|a| a.iter().filter_map(ev_from).collect()).unwrap_or_default();
+    replay(&f, &hist, None).viols
 }
 
 pub fn workers() -> Vec<(&'static str, WorkerFn)> {
     Vec::new()
+}
+
+// ------------------------------------------------------------------------------------------
+// explicit-state BFS. A state is expanded by (1) replaying its history on a FRESH subject
+// (fresh structs / freshly compiled program) — this re-validates the state: the key must equal
+// the key under which it was discovered — and (2) trying every event of the menu from that
+// state, the subject being put back between two events by restoring a snapshot of the whole
+// variable storage + clock (one compile per state instead of one per transition).
+
+struct Node {
+    hist: Vec<Ev>,
+    key: Key,
+}
+
+struct Child {
+    key: Option<Key>,
+    found: Found,
+}
+
+struct Expansion {
+    children: Vec<Child>,
+    machinery: Option<String>,
+}
+
+fn expand(f: &Fam, node: &Node, menu: &[Ev], cov: &Cov) -> Expansion {
+    let bad = |m: String| Expansion { children: Vec::new(), machinery: Some(m) };
+    let r = replay(f, &node.hist, None);
+    if let Some(m) = r.machinery {
+        return bad(m);
+    }
+    let Some(mut run) = r.run else {
+        return bad(format!(
+            "history {{{}}} was violation-free when discovered but its replay is not: subject or snapshot/restore is not deterministic",
+            render(f, &node.hist)
+        ));
+    };
+    cov.replays.fetch_add(1, Relaxed);
+    let k = key_of(f, &run, node.hist.len());
+    if k != node.key {
+        return bad(format!(
+            "history {{{}}}: replay from scratch reaches state {k:?} but the one-step look-ahead from a restored snapshot had reached {:?}",
+            render(f, &node.hist),
+            node.key
+        ));
+    }
+    let snap = run.subj.snapshot();
+    let insts = run.insts.clone();
+    let mut children = Vec::with_capacity(menu.len());
+    for (n, ev) in menu.iter().enumerate() {
+        if n > 0 {
+            run.subj.restore(&snap);
+            run.insts = insts.clone();
+        }
+        cov.evals.fetch_add(1, Relaxed);
+        match step_once(f, &mut run, node.hist.len(), ev, Some(cov)) {
+            Ok(()) => children.push(Child { key: Some(key_of(f, &run, node.hist.len() + 1)), found: Vec::new() }),
+            Err(StepErr::Viol(found)) => {
+                let panicked = found.iter().any(|(s, _)| s.starts_with("C04/panic/"));
+                children.push(Child { key: None, found });
+                if panicked {
+                    // a panic may have left the subject half-updated: rebuild it
+                    match replay(f, &node.hist, None).run {
+                        Some(r2) => run = r2,
+                        None => return bad("state not reproducible after a panic".into()),
+                    }
+                }
+            }
+            Err(StepErr::Machinery(m)) => return bad(m),
+        }
+    }
+    Expansion { children, machinery: None }
+}
+
+struct BfsOut {
+    states: u64,
+    transitions: u64,
+    depth_completed: usize,
+    capped: bool,
+    violations: Vec<Violation>,
+    new_per_depth: Vec<usize>,
+    sample: Option<Vec<Ev>>,
+    machinery: Option<String>,
+}
+
+fn bfs(f: &Fam, menu: &[Ev], cov: &Cov, threads: usize, deadline: Instant) -> BfsOut {
+    let mut out = BfsOut {
+        states: 1,
+        transitions: 0,
+        depth_completed: 0,
+        capped: false,
+        violations: Vec::new(),
+        new_per_depth: Vec::new(),
+        sample: None,
+        machinery: None,
+    };
+    let root = replay(f, &[], None);
+    if let Some(m) = root.machinery {
+        out.machinery = Some(m);
+        return out;
+    }
+    let Some(run) = root.run else {
+        out.violations = root.viols;
+        return out;
+    };
+    let mut seen = std::collections::HashSet::new();
+    let k0 = key_of(f, &run, 0);
+    seen.insert(k0);
+    drop(run);
+    let mut frontier = vec![Node { hist: Vec::new(), key: k0 }];
+    // per signature: how many were confirmed by a replay from scratch
+    let mut confirmed: std::collections::HashMap<String, u32> = std::collections::HashMap::new();
+    for depth in 1..=f.depth {
+        let res = par_map(&frontier, threads, 4 << 20, Some(deadline), |_, n| expand(f, n, menu, cov));
+        let mut next = Vec::new();
+        let mut complete = true;
+        for (node, r) in frontier.iter().zip(res) {
+            let Some(r) = r else {
+                complete = false;
+                continue;
+            };
+            if let Some(m) = r.machinery {
+                out.machinery = Some(m);
+                return out;
+            }
+            for (ev, ch) in menu.iter().zip(r.children) {
+                out.transitions += 1;
+                let child_hist = || {
+                    let mut h = node.hist.clone();
+                    h.push(*ev);
+                    h
+                };
+                for (sig, text) in ch.found {
+                    let hist = child_hist();
+                    let c = confirmed.entry(sig.clone()).or_insert(0);
+                    if *c < 2 {
+                        // the look-ahead ran from a restored snapshot: confirm on a fresh subject
+                        *c += 1;
+                        let again = replay(f, &hist, None);
+                        if !again.viols.iter().any(|v| v.signature == sig) {
+                            out.machinery = Some(format!(
+                                "violation {sig} seen from a restored snapshot is not reproduced by a replay from scratch of {{{}}}",
+                                render(f, &hist)
+                            ));
+                            return out;
+                        }
+                    }
+                    out.violations.push(mk_violation(f, &hist, sig, &text));
+                }
+                if let Some(k) = ch.key {
+                    if seen.insert(k) {
+                        let hist = child_hist();
+                        out.states += 1;
+                        if depth >= 4 && (out.sample.is_none() || depth == f.depth.min(5)) {
+                            out.sample = Some(hist.clone());
+                        }
+                        next.push(Node { hist, key: k });
+                    }
+                }
+            }
+        }
+        out.new_per_depth.push(next.len());
+        if !complete {
+            out.capped = true;
+            break;
+        }
+        out.depth_completed = depth;
+        frontier = next;
+        if frontier.is_empty() {
+            out.depth_completed = f.depth;
+            break;
+        }
+    }
+    out
+}
+
+// ------------------------------------------------------------------------------------------
+// families and the driver
+
+fn families(tier: Tier) -> Vec<Fam> {
+    let depth = tier.pick(6usize, 12usize);
+    let dts: Vec<i64> = [0, 1, 2, 3, 5].iter().map(|d| d * MS).collect();
+    let mut v = Vec::new();
+    for seam in [Seam::Pure, Seam::St] {
+        let st = seam == Seam::St;
+        for kind in [Kind::Ton, Kind::Tof, Kind::Tp] {
+            let fixed: [(&str, &str, Vec<i64>); 6] = [
+                ("fixed", "PT=2ms", vec![2 * MS]),
+                ("fixed", "PT=3ms", vec![3 * MS]),
+                ("fixed", "PT=0", vec![0]),
+                ("fixed", "PT=max", vec![TMAX]),
+                ("neg", "PT=-1ms", vec![-MS]),
+                ("change", "PT free per call in {0,2ms,3ms,max}", vec![0, 2 * MS, 3 * MS, TMAX]),
+            ];
+            for (class, label, ns) in fixed {
+                let b_n = if ns == vec![2 * MS] { 3 * MS } else { 2 * MS };
+                v.push(Fam {
+                    seam,
+                    kind,
+                    class: class.into(),
+                    label: label.into(),
+                    ns,
+                    dts: dts.clone(),
+                    start_cv: None,
+                    b_n,
+                    no_b: false,
+                    a_skip: st,
+                    depth: if class == "change" { tier.pick(5, 9) } else { depth },
+                });
+            }
+            if !st {
+                // extreme time steps; only at the pure seam: at the ST seam the harness clock
+                // itself (Runtime::advance_time, not an anchor of C04) is limited to i64::MAX ns
+                // in total, so accumulated times cannot exceed it there.
+                for (label, pt) in [("PT=3ms, dt in {0,1ms,max}", 3 * MS), ("PT=max, dt in {0,1ms,max}", TMAX)] {
+                    v.push(Fam {
+                        seam,
+                        kind,
+                        class: "xdt".into(),
+                        label: label.into(),
+                        ns: vec![pt],
+                        dts: vec![0, MS, TMAX],
+                        start_cv: None,
+                        b_n: 0,
+                        no_b: true,
+                        a_skip: false,
+                        depth: 4,
+                    });
+                }
+            }
+        }
+        for kind in [Kind::Ctu, Kind::Ctd, Kind::Ctud] {
+            let starts: Vec<(&str, Option<i64>)> = match kind {
+                Kind::Ctu => vec![("init", None), ("near-max", Some(INT_MAX - 1))],
+                Kind::Ctd => vec![("init", None), ("near-min", Some(INT_MIN + 1))],
+                _ => vec![("init", None), ("near-max", Some(INT_MAX - 1)), ("near-min", Some(INT_MIN + 1))],
+            };
+            for (class, start_cv) in starts {
+                v.push(Fam {
+                    seam,
+                    kind,
+                    class: class.into(),
+                    label: match start_cv {
+                        Some(c) => format!("start CV={c}, PV free per call in {{-1,0,1,2,32767}}"),
+                        None => "PV free per call in {-1,0,1,2,32767}".into(),
+                    },
+                    ns: vec![-1, 0, 1, 2, INT_MAX],
+                    dts: vec![0],
+                    start_cv,
+                    b_n: 1,
+                    no_b: false,
+                    a_skip: st,
+                    depth: if kind == Kind::Ctud && st { tier.pick(4, 10) } else { depth },
+                });
+            }
+        }
+        for kind in [Kind::RTrig, Kind::FTrig, Kind::Sr, Kind::Rs] {
+            v.push(Fam {
+                seam,
+                kind,
+                class: "all".into(),
+                label: "all input combinations".into(),
+                ns: vec![0],
+                dts: vec![0],
+                start_cv: None,
+                b_n: 0,
+                no_b: false,
+                a_skip: st,
+                depth,
+            });
+        }
+    }
+    // cheap families first, so that a wall cap can only cut the big PT-change families
+    v.sort_by_key(|f| (f.class == "change") as u8);
+    v
+}
+
+/// Which coverage counters must be non-zero for the family to be non-vacuous.
+fn vacuity(f: &Fam, c: &Cov) -> Option<String> {
+    let need = |n: &AtomicU64, what: &str| (n.load(Relaxed) == 0).then(|| format!("{what} never happened"));
+    let mut missing: Vec<Option<String>> = vec![need(&c.compared, "a compared call")];
+    if f.kind.is_timer() && f.class != "neg" {
+        missing.push(need(&c.exp_q_true, "a call where the model gives Q=TRUE"));
+        missing.push(need(&c.exp_q_false, "a call where the model gives Q=FALSE"));
+    }
+    if f.kind.is_timer() && (f.label == "PT=2ms" || f.label == "PT=3ms" || f.class == "change") {
+        missing.push(need(&c.exact_pt, "accumulated time landing exactly on PT"));
+        missing.push(need(&c.beyond_pt, "accumulated time beyond PT"));
+        missing.push(need(&c.et_exact_checked, "an exact ET comparison"));
+        if f.kind == Kind::Tp {
+            missing.push(need(&c.tp_edge_in_pulse, "a rising edge during a TP pulse"));
+        }
+    }
+    if f.class == "change" {
+        missing.push(need(&c.pt_changed_timing, "a PT change while timing"));
+    }
+    if f.class == "near-max" {
+        missing.push(need(&c.sat_max, "count-up at CV=max"));
+    }
+    if f.class == "near-min" {
+        missing.push(need(&c.sat_min, "count-down at CV=min"));
+    }
+    if f.kind == Kind::Ctud {
+        missing.push(need(&c.both_edges, "simultaneous CU/CD edges"));
+    }
+    if matches!(f.kind, Kind::RTrig | Kind::FTrig) {
+        missing.push(need(&c.fires, "an edge"));
+    }
+    if f.seam == Seam::St {
+        missing.push(need(&c.a_skipped, "a cycle with A not called"));
+        missing.push(need(&c.indep_checks, "an independence check"));
+        if f.kind.is_timer() {
+            missing.push(need(&c.delayed_calls, "a call after skipped cycles"));
+        }
+    }
+    let m: Vec<String> = missing.into_iter().flatten().collect();
+    (!m.is_empty()).then(|| m.join(", "))
+}
+
+pub fn run(ctx: &Ctx) -> EngineResult {
+    quiet_panics();
+    let mut rep = Report::new("model_checking");
+    rep.max_samples = 8;
+    let deadline = Instant::now() + WallDuration::from_secs(ctx.tier.pick(38, 840));
+    let fams = families(ctx.tier);
+    let mut total = [0u64; 19];
+    let (mut states, mut transitions) = (0u64, 0u64);
+    let mut per_family = Vec::new();
+    let mut exhaustive = true;
+    let mut min_depth = usize::MAX;
+    let mut kinds_seen = std::collections::BTreeSet::new();
+    for f in &fams {
+        let t0 = Instant::now();
+        let menu = f.menu();
+        let cov = Cov::default();
+        let out = bfs(f, &menu, &cov, ctx.threads, deadline);
+        let tag = format!("{} {} [{}]", f.seam.name(), f.kind.name(), f.label);
+        if let Some(m) = out.machinery {
+            return machinery(format!("{tag}: {m}"));
+        }
+        let nviol = out.violations.len();
+        let mut by_sig: std::collections::BTreeMap<String, u64> = std::collections::BTreeMap::new();
+        for v in &out.violations {
+            *by_sig.entry(v.signature.clone()).or_insert(0) += 1;
+        }
+        rep.violations_from(out.violations);
+        states += out.states;
+        transitions += out.transitions;
+        for (t, v) in total.iter_mut().zip(cov.values()) {
+            *t += v;
+        }
+        if out.capped {
+            exhaustive = false;
+            rep.cap(format!("{tag}: wall cap reached, depth {} of {} completed", out.depth_completed, f.depth));
+        } else if let (0, Some(v)) = (nviol, vacuity(f, &cov)) {
+            // (a family with violations is pruned at every violating history, so its coverage
+            // may legitimately be lower; the violations themselves are the result then)
+            return machinery(format!("{tag} is vacuous: {v}"));
+        }
+        min_depth = min_depth.min(out.depth_completed);
+        kinds_seen.insert((f.seam.name(), f.kind.name()));
+        if let Some(h) = &out.sample {
+            if f.label == "PT=3ms" && f.kind != Kind::Tof || f.class == "near-max" && f.kind == Kind::Ctud {
+                rep.sample(json!({"seam": f.seam.name(), "kind": f.kind.name(), "family": f.label, "history": render(f, h)}));
+            }
+        }
+        per_family.push(json!({
+            "seam": f.seam.name(), "kind": f.kind.name(), "family": f.label, "class": f.class,
+            "events_per_step": menu.len(), "max_depth": f.depth, "depth_completed": out.depth_completed,
+            "states": out.states, "transitions": out.transitions, "new_states_per_depth": out.new_per_depth,
+            "violating_histories": nviol, "violating_histories_by_signature": by_sig, "wall_s": (t0.elapsed().as_secs_f64() * 100.0).round() / 100.0,
+        }));
+        eprintln!(
+            "[C04] {:4} {:6} {:36.36} ev {:3} states {:6} trans {:8} depth {:2}/{:2} viol {:5} {:5.1}s (t={:.0}s)",
+            f.seam.name(),
+            f.kind.name(),
+            f.label,
+            menu.len(),
+            out.states,
+            out.transitions,
+            out.depth_completed,
+            f.depth,
+            nviol,
+            t0.elapsed().as_secs_f64(),
+            ctx.elapsed()
+        );
+    }
+    if kinds_seen.len() != 20 {
+        return machinery(format!("only {} of 20 (seam, kind) pairs were explored", kinds_seen.len()));
+    }
+    rep.set("states", states);
+    rep.set("transitions", transitions);
+    // every explored history = one transition: its last call(s) ran on the real code and were
+    // compared with the model (its prefix was compared when the parent was explored)
+    rep.set("traces_validated_against_impl", transitions + fams.len() as u64);
+    rep.set("depth_completed_min_over_families", min_depth as u64);
+    rep.set("families", fams.len() as u64);
+    rep.set("per_family", J::Array(per_family));
+    for (n, v) in COV_NAMES.iter().zip(total) {
+        rep.set(n, v);
+    }
+    rep.set("exhaustive", exhaustive);
+    rep.set(
+        "rule",
+        "BFS over call histories per (seam, FB kind, family), simplest first. A state is expanded by replaying its history on a fresh subject (new structs / freshly compiled ST program with two instances driven through TestHarness) and then trying every event from it (subject put back by restoring the variable storage + clock; the key reached that way is re-checked against a replay from scratch when the state is expanded, and the first two violations per signature are confirmed by a replay from scratch). Every call of both instances is compared with the statement's model. Histories are merged on (all instance variables incl. hidden ones with last-call time relative to now, model state incl. all readings still alive, phase of instance B's periodic trace). A history that shows a violation is not extended.",
+    );
+    rep.assume("time before the first call of an instance is not attributed to any input (no 'two calls' yet)");
+    rep.assume("negative PT: only no-panic and ET <= max(PT,0) are demanded; ET is compared exactly only while timing");
+    rep.assume("PT changed while timing: any of four readings (current PT, clipped accumulation, latched Q, PT sampled at start) may explain the trace");
+    rep.assume("ST-seam near-saturation start states are installed by writing CV through storage_mut (reachable by 32766 pulses)");
+    rep.assume("extreme dt (i64::MAX ns) only at the pure seam; the ST harness clock cannot exceed i64::MAX ns in total");
+    rep.assume("FB state lives in VariableStorage + the runtime clock (checked: keys after snapshot-restore equal keys after replay from scratch for every expanded state)");
+    Ok(rep)
 }
